@@ -395,3 +395,18 @@ class Ctx:
         ev["coverage"].update(self.extra)
         with open(os.path.join(EVIDENCE_DIR, self.prop + ".json"), "w") as f:
             json.dump(ev, f, indent=1, default=str)
+
+
+def generic_replay(ctx, mod, path):
+    """re-execute the run that produced the replay file (same tier and seed: every random choice derives from them)"""
+    import random as _r
+
+    with open(path if os.path.isabs(path) else os.path.join(VERIF, path)) as f:
+        rep = json.load(f)
+    ctx.seed = int(rep.get("seed", ctx.seed))
+    ctx.tier = rep.get("tier", ctx.tier)
+    ctx.rng = _r.Random(ctx.seed)
+    print("replaying %s tier=%s seed=%d" % (rep.get("property"), ctx.tier, ctx.seed))
+    for v in rep.get("violations", [])[:5]:
+        print("  recorded witness:", json.dumps(v.get("witness"))[:300])
+    return mod.run(ctx)
